@@ -19,10 +19,11 @@ import (
 // memRun drives the real in-memory config store (pilot/pkg/config/memory): Create / Update / Delete /
 // Get / List and event handlers.  Lean: MemDriver.lean.
 type memRun struct {
-	kind config.GroupVersionKind // ServiceEntry, or VirtualService for cases flagged `vs`
-	ctl  *memory.Controller
-	stop chan struct{}
-	subs map[string]*subscriber
+	kind    config.GroupVersionKind // ServiceEntry, or VirtualService for cases flagged `vs`
+	ctl     *memory.Controller
+	stop    chan struct{}
+	subs    map[string]*subscriber
+	running bool
 }
 
 func newMemRun(flags ...string) runner {
@@ -30,11 +31,23 @@ func newMemRun(flags ...string) runner {
 	if contains(flags, "vs") {
 		r.kind = gvk.VirtualService
 	}
+	if contains(flags, "lr") {
+		// late run: the store is written to (and handlers are registered) before Run marks its static collections
+		// synced - "marked as synced on run to allow clients to store data before the store is marked as synced"
+		return r
+	}
+	r.running = true
 	go r.ctl.Run(r.stop)
 	return r
 }
 
-func (r *memRun) close() { close(r.stop) }
+func (r *memRun) close() {
+	if !r.running { // only Run closes the store's own stop channel
+		r.running = true
+		go r.ctl.Run(r.stop)
+	}
+	close(r.stop)
+}
 
 func memNS(ns string) string {
 	if ns == "-" {
@@ -117,6 +130,19 @@ func (r *memRun) step(toks []string) (string, string) {
 			return memErr(err), line
 		}
 		return "ok:" + nrv, line
+	case toks[0] == "m.run" && len(toks) == 1:
+		if !r.running {
+			if r.ctl.HasSynced() {
+				return "synced-before-run", line
+			}
+			r.running = true
+			go r.ctl.Run(r.stop)
+			synctest.Wait()
+			if !r.ctl.HasSynced() {
+				return "not-synced-after-run", line
+			}
+		}
+		return "ok", line
 	case toks[0] == "m.delete" && len(toks) == 3:
 		return memErr(r.ctl.Delete(r.kind, toks[2], memNS(toks[1]), nil)), line
 	case toks[0] == "m.get" && len(toks) == 3:
@@ -180,11 +206,15 @@ func (r *memRun) step(toks []string) (string, string) {
 }
 
 func genMemCase(r *wire.Rng, n int, w *wire.Out) {
+	head := []string{"case", fmt.Sprint(n), "mem"}
 	if r.Chance(40, 100) {
-		w.Line("case", fmt.Sprint(n), "mem", "vs") // a second kind: VirtualService
-	} else {
-		w.Line("case", fmt.Sprint(n), "mem")
+		head = append(head, "vs") // a second kind: VirtualService
 	}
+	runAt := -1
+	if r.Chance(30, 100) {
+		head = append(head, "lr") // the store runs (is marked synced) only after some operations
+	}
+	w.Line(head...)
 	type obj struct{ rv string }
 	cur := map[string]obj{}
 	var subs []string
@@ -192,7 +222,13 @@ func genMemCase(r *wire.Rng, n int, w *wire.Out) {
 	newRV := func() string { nrv++; return fmt.Sprintf("r%d", nrv) }
 	names := []string{"a", "b", "c"}
 	nops := 4 + r.Intn(40)
+	if contains(head, "lr") {
+		runAt = r.Intn(nops + 1) // nops: never, the final queries find an unsynced store
+	}
 	for i := 0; i < nops; i++ {
+		if i == runAt {
+			w.Line("m.run")
+		}
 		ns, name := wire.Pick(r, []string{"n1", "n2", "n1", "n2", "-"}), wire.Pick(r, names)
 		if len(cur) > 0 && r.Chance(60, 100) { // prefer an existing object
 			ks := make([]string, 0, len(cur))
